@@ -600,3 +600,17 @@ Proof.
     cbn [fold_left fst snd j_recs jprefix].
     apply OnlyLive; [lia|]. intros b Hb. destruct (Ha b Hb) as [H1|[[f0 [Ef H1]]|H1]]; [left; exact H1|discriminate|right; apply TabsAck; exact H1].
 Qed.
+
+(* the image that keeps everything written (a clean close) is admissible *)
+Lemma clean_close_is_image : forall s, pinv s ->
+  is_image s (mk_image s (length (j_recs (p_live s)))
+                         (match p_frozen s with Some f => length (j_recs f) | None => 0 end)
+                         (length (p_man s))).
+Proof.
+  intros s [_ [S1 [S2 S3]] _ _ _]. unfold is_image, mk_image; cbn [i_live i_frozen i_man].
+  split; [|split].
+  - exists (Nat.max (length (j_recs (p_live s))) (j_synced (p_live s))). split; [lia|reflexivity].
+  - destruct (p_frozen s) as [f|]; cbn [option_map]; [|exact I].
+    exists (Nat.max (length (j_recs f)) (j_synced f)). split; [lia|reflexivity].
+  - exists (Nat.max (length (p_man s)) (p_msynced s)). split; [lia|reflexivity].
+Qed.
